@@ -77,6 +77,24 @@ Theorem C01_code_shape :
 Proof. repeat split; reflexivity. Qed.
 Print Assumptions C01_code_shape.
 
+(* every cause of resolution does resolve (the remaining causes are in the property files of
+   their mechanisms: C04_deadline / C04_loss_reported_in_any_continuation for a lost worker,
+   C05_fails_on_time for the hard limit, C04_terminate_job for terminate_job): the worker's
+   result, and a task that could not be sent *)
+Theorem C01_result_resolves : forall s j x (ok : bool) tag i,
+    0 <= j -> cached s j = Some x -> kind x = KApply -> ready x = false ->
+    exists y, get_job (fst (do_ready s j i (if ok then PValue tag else PExc tag))) j = Some y
+              /\ ready y = true /\ value y = Some (if ok then PValue tag else PExc tag).
+Proof. exact result_resolves. Qed.
+Print Assumptions C01_result_resolves.
+
+Theorem C01_put_failure_resolves : forall s j x i k,
+    0 <= j -> cached s j = Some x -> kind x = KApply -> ready x = false ->
+    exists y, get_job (fst (fst (feed_tasks 1 i j k (Some k) false s))) j = Some y
+              /\ ready y = true /\ value y = Some PPutFailed.
+Proof. exact put_failure_resolves. Qed.
+Print Assumptions C01_put_failure_resolves.
+
 (* non-vacuity: a history in which a job is resolved by a time limit, its late result and
    a duplicate are ignored, and a second job is lost with its worker *)
 Definition c01_cfg := mkcfg 2 None (Some 5) None (Some 3) 1 true false.
